@@ -183,7 +183,11 @@ func vfhC10MapOrder() {
 // bit-identical.
 func vfhC10MapOrderShapes() {
 	var wa, wb string
-	switch vfInt("case", 0, 5) {
+	switch vfInt("case", 0, 7) {
+	case 6: // two polygons whose rings start at the same (lowest) vertex
+		wa, wb = "POLYGON((0 0,2 1,1 2,0 0))", "POLYGON((0 0,1 -2,2 -1,0 0))"
+	case 7: // three lines and two holes meeting at shared vertices
+		wa, wb = "POLYGON((0 0,8 0,8 8,0 8,0 0),(2 2,4 2,3 4,2 2),(4 2,6 2,5 4,4 2))", "MULTILINESTRING((4 2,4 -2),(4 2,9 9),(1 1,4 2))"
 	case 0:
 		wa, wb = "LINESTRING(0 0,1 0,1 1,0 0)", "POINT(-5 -3)"
 	case 1:
